@@ -51,12 +51,16 @@ class FilenameData(Data):
 
     @file_name.setter
     def file_name(self, value: str | None):
-        self._file_name = value
-
         if not isinstance(value, (str, type(None))):
             raise ValueError(
                 f"Input 'file_name' for {self} must be of type str or None."
             )
+
+        if value is not None and getattr(self, "_on_file", False):
+            # the stored bytes are filed under the current name: read before it changes
+            _ = self.values
+
+        self._file_name = value
 
         self.workspace.update_attribute(self, "values")
 
